@@ -940,8 +940,16 @@ impl<'tcx> Cx<'tcx> {
                                 }
                             } else {
                                 // byte arrays etc: print through the MIR pretty printer
+                                // (the pretty printer can panic on values whose type it cannot lift, e.g. through some
+                                // aliases; the text is auxiliary, the raw bytes below are what the rules read)
                                 let c = Const::Val(val, t);
-                                cv.push(("text", J::Str(with_no_trimmed_paths!(format!("{}", c)))));
+                                let prev_hook = std::panic::take_hook();
+                                std::panic::set_hook(Box::new(|_| {}));
+                                let txt = std::panic::catch_unwind(std::panic::AssertUnwindSafe(|| with_no_trimmed_paths!(format!("{}", c))));
+                                std::panic::set_hook(prev_hook);
+                                if let Ok(txt) = txt {
+                                    cv.push(("text", J::Str(txt)));
+                                }
                                 // raw bytes for small by-ref constants
                                 if let mir::ConstValue::Indirect { alloc_id, offset } = val {
                                     if let Some(alloc) = tcx.try_get_global_alloc(alloc_id) {
